@@ -1,9 +1,11 @@
 //! unit: u07
-//! properties: C07 C06
+//! properties: C07 C06 C08
 //! note: on-chain claim fee bumping: compute_fee_from_spent_amounts / feerate_bump (package.rs) and the fee-estimator floor wrapper (chaininterface.rs)
 //! trusted: assume_specification for core::cmp::max / core::cmp::min / Result::unwrap_or (std definitions); trait FeeEstimator is reduced to get_est_sat_per_1000_weight with an unconstrained result (any estimator); trait Logger empty (R3 removes log statements)
 //! assume: compute_package_feerate: the fee estimator never returns more than u32::MAX/5 = 858_993_459 sat/kW (`feerate_estimate * 5` is computed in u32; observation O4 in DESIGN)
 //! trusted: payload structs of PackageSolvingData (RevokedOutput, ... HolderHTLCOutput) are skeletons keeping the fields the code reads; PackageSolvingData::amount() is external_body with an uninterpreted result; BitcoinOutPoint, AggregationCluster opaque
+//! trusted: R6: `.iter().find_map(|(_, outp)| V)` and `.iter().filter_map(|(_, outp)| V).max()` in PackageTemplate::signed_locktime / package_locktime become index loops carrying V verbatim
+//! assume: HolderHTLCOutput invariant (preimage is Some ==> cltv_expiry == 0, established by its constructors, checked by a debug_assert in the source); PackageTemplate::signed_locktime is extracted with cfg(debug_assertions) off (its debug-only consistency loop is dropped)
 //! assume: heights and CLTV expiries <= 2^31-1; total claimable value of a package <= 21e14 sat; compute_package_output is called with input_amounts >= dust_limit_sats for the "never above the inputs" clause (observation O3 in DESIGN)
 //! assume: 100 <= predicted_weight <= 4_000_000; input_amounts <= 21e14 sat; 1 <= previous_feerate <= 2^32-1; dust_limit_sats >= 1 (the caller asserts it)
 use vstd::prelude::*;
@@ -106,7 +108,11 @@ pub proof fn lemma_rate_back(new_fee: int, pf: int, w: int)
 {
     assert(pf * w >= 0) by (nonlinear_arith) requires pf >= 0, w >= 0;
     let x = pf * w;
+    vstd::arithmetic::div_mod::lemma_fundamental_div_mod(x, 1000);
+    vstd::arithmetic::div_mod::lemma_mod_bound(x, 1000);
     assert(x / 1000 * 1000 >= x - 999);
+    vstd::arithmetic::div_mod::lemma_fundamental_div_mod(253 * w, 1000);
+    vstd::arithmetic::div_mod::lemma_mod_bound(253 * w, 1000);
     assert(253 * w / 1000 * 1000 >= 253 * w - 999);
     assert(253 * w - 999 - 999 >= 0);
     assert(new_fee * 1000 >= pf * w) by (nonlinear_arith)
@@ -136,6 +142,28 @@ pub uninterp spec fn amount_spec(d: PackageSolvingData) -> u64;
 impl PackageSolvingData {
     #[verifier::external_body]
     fn amount(&self) -> (r: u64) ensures r == amount_spec(*self) { unimplemented!() }
+//@extract lightning/src/chain/package.rs :: impl PackageSolvingData :: fn minimum_locktime
+//@ret r
+//@ensures A only-claims-of-received-htlcs-on-the-counterpartys-commitment-are-timelocked
+    r == min_lock_of(*self),
+//@end
+//@extract lightning/src/chain/package.rs :: impl PackageSolvingData :: fn signed_locktime
+//@ret r
+//@requires
+    // type invariant of HolderHTLCOutput (its constructors): a success (preimage) claim is pre-signed with locktime 0
+    holder_htlc_wf(*self),
+//@ensures A pre-signed-holder-htlc-transactions-fix-their-locktime
+    r == signed_lock_of(*self),
+//@end
+}
+pub open spec fn min_lock_of(d: PackageSolvingData) -> Option<u32> {
+    match d { PackageSolvingData::CounterpartyReceivedHTLCOutput(o) => Some(o.htlc.cltv_expiry), _ => None }
+}
+pub open spec fn holder_htlc_wf(d: PackageSolvingData) -> bool {
+    match d { PackageSolvingData::HolderHTLCOutput(o) => o.preimage is Some ==> o.cltv_expiry == 0, _ => true }
+}
+pub open spec fn signed_lock_of(d: PackageSolvingData) -> Option<u32> {
+    match d { PackageSolvingData::HolderHTLCOutput(o) => Some(o.cltv_expiry), _ => None }
 }
 pub open spec fn sum_amounts(s: Seq<(BitcoinOutPoint, PackageSolvingData)>) -> int
     decreases s.len()
@@ -196,7 +224,7 @@ impl PackageTemplate {
 //@requires
     current_height <= 0x7fff_ffff, self.counterparty_spendable_height <= 0x7fff_ffff,
     forall|k: int| 0 <= k < self.inputs@.len() ==> input_sane(#[trigger] self.inputs@[k].1),
-//@ensures P C07,C06 next-bump-is-in-the-future-at-most-15-blocks-away-and-every-block-when-a-deadline-is-within-3
+//@ensures P C07,C06,C08 next-bump-is-in-the-future-at-most-15-blocks-away-and-every-block-when-a-deadline-is-within-3
     current_height < r <= current_height + LOW_FREQUENCY_BUMP_INTERVAL,
     r == current_height + 1 || r == current_height + 3 || r == current_height + 15,
     forall|k: int| 0 <= k < self.inputs@.len() && deadline_of(#[trigger] self.inputs@[k].1, self.counterparty_spendable_height) is Some
@@ -229,6 +257,72 @@ impl PackageTemplate {
     timer_for_target_conf(outp.htlc.cltv_expiry + MIN_CLTV_EXPIRY_DELTA as u32),
 //@with
     timer_for_target_conf(outp.htlc.cltv_expiry + 4 * MIN_CLTV_EXPIRY_DELTA as u32),
+//@end
+
+//@extract lightning/src/chain/package.rs :: impl PackageTemplate :: fn signed_locktime
+//@cfg debug_assertions=false
+//@ret r
+//@requires
+    forall|k: int| 0 <= k < self.inputs@.len() ==> holder_htlc_wf(#[trigger] self.inputs@[k].1),
+//@ensures A the-first-pre-signed-locktime-among-the-inputs
+    r is None <==> (forall|k: int| 0 <= k < self.inputs@.len() ==> signed_lock_of(#[trigger] self.inputs@[k].1) is None),
+    r is Some ==> exists|k: int| 0 <= k < self.inputs@.len() && signed_lock_of(#[trigger] self.inputs@[k].1) == r,
+//@rw R6
+    self.inputs.iter().find_map(|(_, outp)| outp.signed_locktime())
+//@with
+    { // R6: self.inputs.iter().find_map(|(_, outp)| V)
+        let mut __r: Option<u32> = None; let mut __i: usize = 0;
+        while __i < self.inputs.len() && __r.is_none()
+            invariant __i <= self.inputs@.len(), forall|k: int| 0 <= k < self.inputs@.len() ==> holder_htlc_wf(#[trigger] self.inputs@[k].1),
+                __r is None ==> (forall|k: int| 0 <= k < __i ==> signed_lock_of(#[trigger] self.inputs@[k].1) is None),
+                __r is Some ==> exists|k: int| 0 <= k < self.inputs@.len() && signed_lock_of(#[trigger] self.inputs@[k].1) == __r,
+            decreases self.inputs@.len() - __i + (if __r is None { 1int } else { 0int })
+        {
+            let outp = &self.inputs[__i].1;
+            __r = outp.signed_locktime();
+            __i = __i + 1;
+        }
+        __r
+    }
+//@end
+
+//@extract lightning/src/chain/package.rs :: impl PackageTemplate :: fn package_locktime
+//@ret r
+//@requires
+    forall|k: int| 0 <= k < self.inputs@.len() ==> holder_htlc_wf(#[trigger] self.inputs@[k].1),
+    // (the code's debug_assert) a package with a pre-signed input has no separately timelocked input
+    (exists|k: int| 0 <= k < self.inputs@.len() && signed_lock_of(#[trigger] self.inputs@[k].1) is Some)
+        ==> (forall|k: int| 0 <= k < self.inputs@.len() ==> min_lock_of(#[trigger] self.inputs@[k].1) is None),
+//@ensures P C07 the-claim-transactions-locktime-satisfies-every-inputs-timelock-and-is-the-current-height-otherwise
+    forall|k: int| 0 <= k < self.inputs@.len() && min_lock_of(#[trigger] self.inputs@[k].1) is Some ==> r >= min_lock_of(self.inputs@[k].1)->Some_0,
+    (forall|k: int| 0 <= k < self.inputs@.len() ==> signed_lock_of(#[trigger] self.inputs@[k].1) is None) ==> r >= current_height
+        && (r == current_height || exists|k: int| 0 <= k < self.inputs@.len() && min_lock_of(#[trigger] self.inputs@[k].1) == Some(r)),
+    (exists|k: int| 0 <= k < self.inputs@.len() && signed_lock_of(#[trigger] self.inputs@[k].1) is Some)
+        ==> exists|k: int| 0 <= k < self.inputs@.len() && signed_lock_of(#[trigger] self.inputs@[k].1) == Some(r),
+//@rw R6
+    self.inputs.iter().filter_map(|(_, outp)| outp.minimum_locktime()).max()
+//@with
+    { // R6: self.inputs.iter().filter_map(|(_, outp)| V).max()
+        let mut __m: Option<u32> = None; let mut __i: usize = 0;
+        while __i < self.inputs.len()
+            invariant __i <= self.inputs@.len(),
+                forall|k: int| 0 <= k < __i && min_lock_of(#[trigger] self.inputs@[k].1) is Some ==> __m is Some && __m->Some_0 >= min_lock_of(self.inputs@[k].1)->Some_0,
+                __m is Some ==> exists|k: int| 0 <= k < __i && min_lock_of(#[trigger] self.inputs@[k].1) == __m,
+            decreases self.inputs@.len() - __i
+        {
+            let outp = &self.inputs[__i].1;
+            match outp.minimum_locktime() {
+                Some(__v) => { __m = match __m { None => Some(__v), Some(__c) => if __v >= __c { Some(__v) } else { Some(__c) } }; },
+                None => {},
+            }
+            __i = __i + 1;
+        }
+        __m
+    }
+//@mutant locktime_ignores_the_inputs_timelock
+    core::cmp::max(current_height, minimum_locktime.unwrap_or(0))
+//@with
+    current_height
 //@end
 
 //@extract lightning/src/chain/package.rs :: impl PackageTemplate :: fn compute_package_feerate
